@@ -52,7 +52,7 @@ def planted_array_cases(rng, n_random, thorough):
     alpha = {"a": 2, "b": 3, "c": 4}
     specs = [
         "a b c", "a *v b", "*v a b", "a b *v", "a #b c", "a b a+b", "a *#v c", "b a 7", "_ a b", "a ... c",
-        "a b b-a", "#a #b #c", "a dim=b c",
+        "a b b-a", "#a #b #c", "a dim=b c", "7 a a", "_ a b a", "... a a", "n=3 a a+1", "2 a *v a",
     ]
     if thorough:
         specs += [gen_dims.rand_dims(rng, 5, holes=()) for _ in range(200)]
@@ -65,6 +65,9 @@ def planted_array_cases(rng, n_random, thorough):
                 bad[i] = bad[i] + delta
                 for prior in ([], [("x y", [9, 8])], [("a", [2])], [("*v", [5, 6])]):
                     cases.append((prior, arr_type(dims), arr_val(bad), {}))
+                # the same axes as a nested annotation, split at every position
+                for k in range(1, len(dims.split())):
+                    cases.append(([], gen_prog.nested(arr_type(dims), k), arr_val(bad), {}))
         cases.append(([], arr_type(dims), arr_val(good), {}))
         cases.append(([], arr_type(dims), arr_val(good + [1]), {}))
     # raising targets: something is bound first, then the walk raises
